@@ -118,9 +118,9 @@ def run(c):
     BR = "<grin_core::ser::BufReader<'a, B> as grin_core::ser::Reader>::"
     for m, g in (("read_u8", "get_u8"), ("read_u16", "get_u16"), ("read_u32", "get_u32"), ("read_u64", "get_u64"), ("read_i32", "get_i32"),
                  ("read_i64", "get_i64"), ("read_fixed_bytes", "copy_to_slice")):
-        c.r1("buf-%s-guarded" % m, BR + m, "grin_core::ser::BufReader::has_remaining", sink="re:bytes::buf::buf_impl::Buf::%s$" % g, via=0,
+        c.r1("buf-%s-guarded" % m, BR + m, "grin_core::ser::BufReader::has_remaining", sink="re:bytes::buf::buf_impl::Buf::%s$" % g, via=2,
              desc="BufReader::%s: has_remaining(..) succeeds before the panicking bytes::Buf getter" % m)
-    c.r1("buf-fixed-alloc-guarded", BR + "read_fixed_bytes", "grin_core::ser::BufReader::has_remaining", sink="re:alloc::vec::from_elem$", via=0)
+    c.r1("buf-fixed-alloc-guarded", BR + "read_fixed_bytes", "grin_core::ser::BufReader::has_remaining", sink="re:alloc::vec::from_elem$", via=2)
     c.r2("has-remaining", "grin_core::ser::BufReader::has_remaining", ops={"Ge"}, lhs=["call:Buf::remaining"], rhs=["arg1"], fail_on=False,
          desc="has_remaining: Ok only if inner.remaining() >= len")
     c.r2("fixed-bytes-cap-bin", "<grin_core::ser::BinReader<'a, R> as grin_core::ser::Reader>::read_fixed_bytes", ops={"Gt"}, lhs=["arg1"], rhs=["const:100000"],
@@ -139,8 +139,8 @@ def run(c):
     c.r2("bitmap-seg-chunks", "grin_chain::txhashset::bitmap_accumulator::BitmapSegment::validate_blocks", ops={"Gt"}, lhs=["call:BitmapSegment::n_chunks"], rhs=["call:BitmapSegment::max_chunks"],
          err="TooLargeReadErr")
     c.r1("into-segment-validates", "grin_chain::txhashset::bitmap_accumulator::BitmapSegment::into_segment", "grin_chain::txhashset::bitmap_accumulator::BitmapSegment::validate_blocks",
-         sink="re:alloc::vec::Vec::with_capacity$", via=0)
-    c.r1("bitmap-read-validates", BS, "grin_chain::txhashset::bitmap_accumulator::BitmapSegment::validate_blocks", via=0)
+         sink="re:alloc::vec::Vec::with_capacity$", via=2)
+    c.r1("bitmap-read-validates", BS, "grin_chain::txhashset::bitmap_accumulator::BitmapSegment::validate_blocks", via=2)
     c.r2("segment-positions-sorted", "grin_core::core::pmmr::segment::read_segment_positions", ops={"Le"}, lhs=["call:Reader::read_u64"], err="SortError", dominate=False)
     SR = "grin_core::core::pmmr::segment::Segment::root"
     c.r2("segment-root-height", SR, ops={"Ge"}, lhs=["arg0.identifier.height"], rhs=["const:64"], err="NonExistent", sink="re:core::option::Option::unwrap$",
